@@ -6,7 +6,7 @@ use proptest::prelude::*;
 use vcore::*;
 
 fn traffic_weights() -> OpWeights {
-	OpWeights { send: 30, claim: 8, fail: 3, deliver: 34, flush: 3, events: 10, forwards: 10, disconnect: 3, reconnect: 5, setfee: 3, timer: 1, pump: 8, mine: 2, set_style: 2, ..OpWeights::zero() }
+	OpWeights { send: 27, send_two_parts: 4, claim: 8, fail: 3, deliver: 34, flush: 3, events: 10, forwards: 10, disconnect: 3, reconnect: 5, setfee: 3, timer: 1, pump: 8, mine: 2, set_style: 2, ..OpWeights::zero() }
 }
 
 /// partial settlement of the burst: some HTLCs get committed, claimed or failed, dances are left half done
@@ -15,7 +15,7 @@ fn settle_weights() -> OpWeights {
 }
 
 fn send_op() -> impl Strategy<Value = Op> + Clone {
-	op_strategy(OpWeights { send: 1, ..OpWeights::zero() })
+	op_strategy(OpWeights { send: 7, send_two_parts: 1, ..OpWeights::zero() })
 }
 
 fn pre_strategy() -> impl Strategy<Value = Pre> + Clone {
